@@ -459,6 +459,8 @@ def _rectangular_arrays(ctx, lc, fo):
                 x = ctx.norm.xexpr(m, n.args[0])
                 if not (isinstance(x, ast.ListComp) and len(x.generators) == 1 and isinstance(x.elt, (ast.ListComp, ast.List))):
                     continue
+                if isinstance(x.elt, ast.List) and not any(isinstance(e_, ast.Starred) for e_ in x.elt.elts):
+                    continue  # `[len(row)]`, `[a, b]`: a display has the same length for every row
                 it = ctx.norm.xtext(m, x.generators[0].iter)
                 table = next((t for t in RAGGED_TABLES if it.endswith("." + t) or it == t), None)
                 if table is None:
